@@ -1024,3 +1024,93 @@ func runCompareDistinct(p *Program, r *RuleResult) {
 	}
 	r.count("binary predicate calls", n)
 }
+
+// R-LOOP-FULL (C05, C10, C07): a loop over a collection does not stop short of its end.
+func init() {
+	register(&Rule{Name: "R-LOOP-FULL", Min: 1,
+		Doc: "in the type library and the typechecker: a counting loop whose bound is len(x)-k (k >= 1) is only legitimate when its body also reaches the elements it leaves out - an access x[i+c], or a nested loop whose index starts at i+c (pairs i<j); otherwise the last k elements of x are never looked at (a duplicate, a missing label, an unchecked parameter in last position goes unnoticed)",
+		Run: runLoopFull})
+}
+
+func runLoopFull(p *Program, r *RuleResult) {
+	nLoops, nShort := 0, 0
+	for _, fn := range p.SrcFuncs {
+		if fn.Pkg == nil || !(fn.Pkg.Pkg.Path() == typesPkg || fn.Pkg.Pkg.Path() == processPkg) || fn.Blocks == nil {
+			continue
+		}
+		if rm := rootMethod(fn); strings.HasPrefix(rm.Name(), "Transition") {
+			continue
+		}
+		view := p.View(fn)
+		ord := 0
+		for _, l := range view.Loops() {
+			nLoops++
+			ins := view.Instrs(l.Header)
+			if len(ins) == 0 {
+				continue
+			}
+			iff, ok := ins[len(ins)-1].(*ssa.If)
+			if !ok {
+				continue
+			}
+			bo, ok := iff.Cond.(*ssa.BinOp)
+			if !ok || bo.Op != token.LSS {
+				continue
+			}
+			// bound: len(x) - k
+			sub, ok := bo.Y.(*ssa.BinOp)
+			if !ok || sub.Op != token.SUB {
+				continue
+			}
+			kc, ok := sub.Y.(*ssa.Const)
+			lc, ok2 := sub.X.(*ssa.Call)
+			if !ok || !ok2 {
+				continue
+			}
+			bi, isB := lc.Common().Value.(*ssa.Builtin)
+			if !isB || bi.Name() != "len" {
+				continue
+			}
+			xk := exprKey(lc.Common().Args[0])
+			idx := bo.X
+			nShort++
+			ord++
+			construct := fmt.Sprintf("short-loop#%d-over-%s", ord, displayKey(lc.Common().Args[0]))
+			reaches := false
+			for b := range l.Body {
+				for _, in := range b.Instrs {
+					switch x := in.(type) {
+					case *ssa.IndexAddr:
+						if exprKey(x.X) == xk {
+							if add, ok := x.Index.(*ssa.BinOp); ok && add.Op == token.ADD && (add.X == idx || add.Y == idx) {
+								reaches = true
+							}
+						}
+					case *ssa.Phi:
+						// the index of a nested loop initialised with idx + c
+						if b != l.Header {
+							for _, e := range x.Edges {
+								if add, ok := e.(*ssa.BinOp); ok && add.Op == token.ADD && (add.X == idx || add.Y == idx) {
+									if _, isC := add.Y.(*ssa.Const); isC {
+										reaches = true
+									}
+								}
+							}
+						}
+					}
+				}
+			}
+			if reaches {
+				r.add(fnName(fn), construct, Holds, p.instrPos(iff), "the body reaches the elements beyond the index (i+c access or a nested loop from i+c)")
+			} else {
+				r.add(fnName(fn), construct, Violated, p.instrPos(iff),
+					fmt.Sprintf("the loop stops %s element(s) before the end of %s and nothing in its body looks at them: whatever is wrong with the last element(s) is never detected", kc.Value.String(), displayKey(lc.Common().Args[0])))
+			}
+		}
+	}
+	if nLoops >= 100 {
+		r.add("types+process", "loops-scanned-for-short-bounds", Holds, "", fmt.Sprintf("%d loops examined, %d with a bound len(x)-k", nLoops, nShort))
+	} else {
+		r.add("types+process", "loops-scanned-for-short-bounds", Undecided, "", fmt.Sprintf("only %d loops found", nLoops))
+	}
+}
